@@ -33,6 +33,7 @@ TRUSTED = [
     "reversal transforms, merge-sort as *a* sorting permutation) and Model/Csv.lean (CPython _csv.c writer "
     "QUOTE_MINIMAL + reader state machine, excel dialect), tied by the correspondence runs of this harness",
     "Spec/TableRows.lean (list-of-row-tuples operations) and the python row oracle in harness/c20.py",
+    "Model/CastStr.lean (int/float/text decision of cast_str_to_numeric; float64 parsing and repr are hypotheses of the theorem)",
     "numpy fancy/boolean indexing, numpy.rec argsort (any sorting permutation), CPython csv/json/pickle/gzip "
     "are modelled or used as oracles, not verified",
 ]
@@ -1479,6 +1480,67 @@ def corr_csv(ctx, out):
         out["samples"].append(dict(kind="csv", delim=d, rows=rows, text=text))
 
 
+CAST_TOKENS = [
+    "0", "1", "-1", "+2", "10", "007", "123456789", "-0", " 3", "4 ", " 5 ", "\t6", "1_0", "1__0", "_1", "1_", "1_000_000",
+    "1.5", "-2.25", ".5", "5.", "1e5", "1E5", "1e-3", "-1.5e+10", "1.e2", "1_0.5", "1e", "e5", ".", "-", "+", "", " ",
+    "inf", "-inf", "Infinity", "nan", "NaN", "+nan", "in", "0x10", "1,5", "1 2", "--1", "+-1", "1.2.3", "1e5e2", "a", "None",
+    "True", "12a", "9223372036854775807", "-9223372036854775808", "0.1", "1e308", "2.5e-5", "1_0e1_0", "1._5",
+]  # (ASCII only: python's int() also accepts other Unicode decimal digits, the model does not)
+
+
+def corr_cast_and_format(ctx, out):
+    """the loader's int / float / text decision (`cast_str_to_numeric`) and the to_csv()/to_tsv() text vs the model"""
+    import numpy
+    from cogent3 import make_table
+    from cogent3.util.table import cast_str_to_numeric
+
+    rng = ctx.subrng("cast")
+    cols = [[t] for t in CAST_TOKENS]
+    for _ in range(ctx.budget(400, 6000)):
+        pool = rng.choice([CAST_TOKENS, CAST_TOKENS[:17], CAST_TOKENS[17:30], ["1", "-3", "10", "2.5", "1e5", "7"]])
+        cols.append([rng.choice(pool) for _ in range(rng.choice([1, 2, 3, 5]))])
+    reps = ctx.driver.batch([("cast", dict(cells=c)) for c in cols])
+    for cells, rep in zip(cols, reps):
+        out["evaluations"] += 1
+        try:
+            r = cast_str_to_numeric(numpy.array(cells, dtype="U"))
+            k = r.dtype.kind
+            real = dict(kind="int", values=[int(x) for x in r.tolist()]) if k in "iu" else dict(kind="float") if k == "f" else dict(kind="complex") if k == "c" else dict(kind="text")
+        except OverflowError:
+            continue  # ints beyond int64 are outside the assumptions
+        if real["kind"] == "complex":
+            bump(out, "cast", "complex (not modelled)")
+            continue
+        bump(out, "cast", real["kind"])
+        if rep != real:
+            add_failure(out, "corr", "cast_str_to_numeric decision differs from the model", cells, rep, real, confirmed=False)
+        elif real["kind"] != "text":
+            out["nontrivial"].add(("cast", tuple(cells)))
+    # to_csv / to_tsv text = the csv writer on header :: rows without the final newline
+    reqs, want = [], []
+    for _ in range(ctx.budget(150, 2000)):
+        td = gen_file_table(rng)
+        keep = [j for j, c in enumerate(td["cols"]) if all(isinstance(v, str) for v in c)]
+        if not keep:
+            continue
+        H = [td["header"][j] for j in keep]
+        cols_ = [td["cols"][j] for j in keep]
+        t = make_table(header=list(H), data={h: list(c) for h, c in zip(H, cols_)})
+        how = rng.choice(["to_csv", "to_tsv", "to_string"])
+        sep = "," if how == "to_csv" else "\t" if how == "to_tsv" else rng.choice([",", "\t"])
+        text = t.to_csv() if how == "to_csv" else t.to_tsv() if how == "to_tsv" else t.to_string(format="csv" if sep == "," else "tsv")
+        nrows = len(cols_[0])
+        reqs.append(("to_csv", dict(delim=sep, header=H, rows=[[c[i] for c in cols_] for i in range(nrows)])))
+        want.append((how, text))
+    for (cmd, rq), (how, text), rep in zip(reqs, want, ctx.driver.batch(reqs)):
+        out["evaluations"] += 1
+        bump(out, "format_text", how)
+        if rep != text:
+            add_failure(out, "corr", f"{how}() text differs from the csv-writer model", rq, rep, text, confirmed=False)
+        elif rq["rows"]:
+            out["nontrivial"].add(("fmt", how, text[:60]))
+
+
 def corr_table_text(ctx, out):
     """Table.write (delimited) text and load_delimited vs the model's tableWrite / loadDelimited"""
     from cogent3 import make_table
@@ -1613,27 +1675,6 @@ def compare_model_real(case, rep, real):
     return None
 
 
-def model_as_real(case, rep):
-    """the model's reply in the shape of run_real()'s result (to put the *model* under the row oracle)"""
-    def val(j):
-        return unrat(j["f"]) if isinstance(j, dict) else j
-
-    if isinstance(rep, dict) and "err" in rep:
-        return dict(err=rep["err"], msg="(model)")
-    if case["op"] == "count":
-        return dict(count=rep)
-    if case["op"] == "row_indices":
-        return dict(mask=rep)
-    if case["op"] == "count_unique":
-        return dict(counts=Counter({tuple(canon(val(x)) for x in k): n for k, n in rep}))
-    if case["op"] == "distinct_values":
-        return dict(values={tuple(canon(val(x)) for x in k) for k in rep}, size=len(rep))
-    rows = [[val(x) for x in r] for r in rep["rows"]]
-    if case["op"] == "getitem" and "scalar" in oracle(case) and len(rows) == 1 and len(rows[0]) == 1:
-        return dict(scalar=rows[0][0])
-    return dict(header=rep["header"], rows=rows, shape=[len(rows), rep.get("ncols", 0)])
-
-
 def malformed_case(rng):
     """inputs off the happy path: unknown column names, key dimension mismatch, partial reverse overlap,
     reversed bool / mixed columns"""
@@ -1659,6 +1700,8 @@ def malformed_case(rng):
     if k == "revbool":
         return dict(op="sorted", t=t, columns=rng.choice([["b"], ["i", "b"], None]), reverse=["b"])
     if k == "revobj":
+        # a None makes the object column incomparable for every sort (bool/int/float mixes are comparable in python)
+        t["cols"][3][rng.randrange(len(t["cols"][3]))] = None
         return dict(op="sorted", t=t, columns=None, reverse=["m"])
     t = gen_table(rng, nrows=rng.choice([2, 3, 5]), names=["i", "s", "b", "m"], kinds=["int", "str", "bool", "mixed"], index=False)
     t["cols"][3][rng.randrange(len(t["cols"][3]))] = None  # a None among the first key column: every sort compares it
@@ -1675,6 +1718,7 @@ def correspondence(ctx):
     replay_fixed_witnesses(ctx, out)
     corr_csv(ctx, out)
     corr_table_text(ctx, out)
+    corr_cast_and_format(ctx, out)
     rng = ctx.subrng("corr-ops")
     cases = [gen_case(rng) for _ in range(ctx.budget(5000, 100000))]
     cases += [malformed_case(rng) for _ in range(ctx.budget(500, 6000))]
